@@ -1,7 +1,7 @@
 (* C09: depth() is the critical-path length of the inlined circuit.
    Statements only; proofs are in Depth/Depth.v and Depth/DepthModel.v. *)
 From Coq Require Import ZArith List Bool String.
-From Verif Require Import BGate PyVal Ast State Unroll Spec Depth DepthModel DepthSpec.
+From Verif Require Import BGate PyVal Ast State Unroll Spec Depth DepthModel DepthSpec FixProofs.
 Import ListNotations.
 Open Scope Z_scope.
 
@@ -56,6 +56,44 @@ Print Assumptions C09_model_measure.
 Theorem C09_nonneg_kept (d : dmap (R := rsrc)) ev : (forall r, 0 <= d r) -> forall r, 0 <= dstep rsrc_eqb d ev r.
 Proof. exact (dstep_nonneg d ev). Qed.
 Print Assumptions C09_nonneg_kept.
+
+(* (4) Whole programs.  For every well-formed flat program (Props/C03.v: what unroll() leaves), of any length and nesting,
+   the depth counter the visitor model holds for every qubit and classical bit after validate() -- what depth() reads --
+   and after unroll() is the recurrence of (1) run over the program's own events in program order: one event per gate
+   application (its qubits), per barrier, per reset, per measurement (its qubit AND its target bit), the two blocks of
+   a conditional one after the other; declarations, includes and global phases are no events.  With (1) and (2): the
+   counter of a bit is the length of the longest chain of operations of the program that ends on it, and since the
+   value is a function of the program alone, validating or unrolling again cannot change it. *)
+Theorem C09_depth_of_a_flat_program_is_the_recurrence_over_its_operations fuel p :
+  wf_flat env0 p = true -> (ldepth p < fuel)%nat ->
+  (exists o, run_visit false true [] fuel p = Ok o /\ forall r, dof (o_state o) r = depth_after rsrc_eqb (evs_of p) r) /\
+  (exists o, run_visit false false [] fuel p = Ok o /\ o_stmts o = p /\ forall r, dof (o_state o) r = depth_after rsrc_eqb (evs_of p) r).
+Proof.
+  intros Hw Hf. destruct (wf_flat_is_accepted_and_a_fixpoint fuel p Hw Hf) as [(o1 & E1 & _ & _ & D1) (o2 & E2 & Ho & _ & _ & D2)].
+  split; [exists o1; split; assumption|exists o2; repeat split; assumption].
+Qed.
+Print Assumptions C09_depth_of_a_flat_program_is_the_recurrence_over_its_operations.
+
+(* ... hence no chain of operations of the program ending on a bit is longer than that bit's counter *)
+Corollary C09_flat_program_no_chain_is_longer fuel p o r n :
+  wf_flat env0 p = true -> (ldepth p < fuel)%nat -> run_visit false true [] fuel p = Ok o ->
+  ChainTo (evs_of p) r n -> Z.of_nat n <= dof (o_state o) r.
+Proof.
+  intros Hw Hf Ho Hc. destruct (wf_flat_is_accepted_and_a_fixpoint fuel p Hw Hf) as [(o1 & E1 & _ & _ & D1) _].
+  rewrite E1 in Ho. injection Ho as <-. rewrite D1. exact (depth_upper rsrc_eqb rsrc_eqb_spec (evs_of p) r n Hc).
+Qed.
+Print Assumptions C09_flat_program_no_chain_is_longer.
+
+Example C09_flat_program_example :
+  let q i := QIdx "q" [IdxList [IExpr (ELit (VInt i))]] in
+  let c i := QIdx "c" [IdxList [IExpr (ELit (VInt i))]] in
+  let p := [SQubitDecl "q" (Some (ELit (VInt 3))); SClassicalDecl (TBit (Some (ELit (VInt 1)))) "c" None;
+            SGate [] "h" [] [q 0]; SGate [] "cx" [] [q 0; q 1]; SMeasure (q 1) (Some (c 0)); SBarrier [q 2];
+            SIf (EBin "==" (EIndexE (EId "c") (IdxList [IExpr (ELit (VInt 0))])) (ELit (VBool true))) [SGate [] "x" [] [q 2]] []]%string in
+  wf_flat env0 p = true /\
+  evs_of p = [[Qr ("q", 0)]; [Qr ("q", 0); Qr ("q", 1)]; [Qr ("q", 1); Br ("c", 0)]; [Qr ("q", 2)]; [Qr ("q", 2)]]%string /\
+  depth_after rsrc_eqb (evs_of p) (Br ("c"%string, 0)) = 3.
+Proof. vm_compute. repeat split; reflexivity. Qed.
 
 (* non-vacuity: a concrete circuit  h q0; cx q0,q1; measure q1->c0; barrier q0,q1,q2; x q2  has depth 5
    along  h - cx - measure - barrier - x *)
